@@ -21,6 +21,9 @@ Has(r, f) == f \in DOMAIN r
 \* writer events of one probe, e.g. <<[w |-> 3, k |-> "w"]>>: only the sequence of writers written to
 Written(evs) == [x \in 1..Len(SelectSeq(evs, LAMBDA v : v.k = "w")) |-> SelectSeq(evs, LAMBDA v : v.k = "w")[x].w]
 
+Count(seq, x) == Cardinality({j \in DOMAIN seq : seq[j] = x})
+SameBag(a, b) == \A x \in ToSet(a) \cup ToSet(b) : Count(a, x) = Count(b, x)
+
 ObsLoggerOK(s, l, o) ==
     /\ Has(o, "json") => o.json = s.cfg[l].json
     /\ Has(o, "color") => o.color = s.cfg[l].color
@@ -30,11 +33,14 @@ ObsLoggerOK(s, l, o) ==
     /\ Has(o, "parent") => o.parent = s.parent[l]
     /\ Has(o, "root") => o.root = RootOf(s, l)
     /\ Has(o, "shape") => o.shape = Fmt(s.cfg[l])
+    /\ Has(o, "attrs") => o.attrs = Merge(s.cfg[l].attrs)
     /\ Has(o, "each") => o.each = EachOf(s, l)
     /\ Has(o, "sub") => \A x \in 1..Len(o.sub) :
             LET c == SubCands(s, l, o.sub[x].name)
             IN IF c = {} THEN o.sub[x].got = 0 ELSE o.sub[x].got \in c
-    /\ Has(o, "dest") => \A x \in 1..Len(o.dest) : Written(o.dest[x].evs) = Dest(s, l, o.dest[x].r)
+    \* every selected destination receives the record once per occurrence in the list, nothing else
+    \* receives anything (the order of Write calls across destinations is not part of the property)
+    /\ Has(o, "dest") => \A x \in 1..Len(o.dest) : SameBag(Written(o.dest[x].evs), Dest(s, l, o.dest[x].r))
     /\ Has(o, "gate") => \A x \in 1..Len(o.gate) :
             o.gate[x].out = (IF o.gate[x].ep = "Verbose" THEN FALSE ELSE Emits(s, l, o.gate[x].r))
 
@@ -54,6 +60,7 @@ Expect(s, e) ==
                     cfg |-> [l \in 1..s2.n |-> [json |-> s2.cfg[l].json, color |-> s2.cfg[l].color,
                                                level |-> s2.cfg[l].level, skip |-> s2.cfg[l].skip,
                                                name |-> s2.name[l], parent |-> s2.parent[l],
+                                               attrs |-> s2.cfg[l].attrs,
                                                wn |-> s2.cfg[l].wn, we |-> s2.cfg[l].we]]])
 
 TInit == st = InitState /\ i = 1 /\ failed = FALSE /\ bad = {}
